@@ -349,6 +349,32 @@ Proof.
   rewrite <- Z.add_mod_idemp_r in C by lia. rewrite A, Z.add_0_r in C. exact C.
 Qed.
 
+Lemma enc_block_eq : forall w pos id nw body,
+  enc_block w pos id nw body =
+  bits_of w 1 ++ enc_vbr 8 id ++ enc_vbr 4 (Z.of_nat nw) ++
+  zeros (padlen (pos + Z.of_nat (length (blk_header w id nw)))) ++
+  bits_of 32 (block_words w pos id nw body mod two32) ++
+  body ++ bits_of nw 0 ++
+  zeros (padlen (blk_body_start w pos id nw + Z.of_nat (length (body ++ bits_of nw 0)))) .
+Proof.
+  intros. unfold enc_block, block_words, blk_header. cbv zeta. rewrite <- !app_assoc. reflexivity.
+Qed.
+
+Lemma block_words_32 : forall w pos id nw body, 0 <= pos ->
+  32 * block_words w pos id nw body =
+  Z.of_nat (length (body ++ bits_of nw 0)) +
+  Z.of_nat (padlen (blk_body_start w pos id nw + Z.of_nat (length (body ++ bits_of nw 0)))).
+Proof.
+  intros w pos id nw body Hp.
+  pose proof (enc_block_length_aligned w pos id nw body Hp) as Hmod. cbv zeta in Hmod.
+  unfold block_words. cbv zeta.
+  set (n := Z.of_nat (length ((body ++ bits_of nw 0) ++ zeros (padlen (blk_body_start w pos id nw + Z.of_nat (length (body ++ bits_of nw 0))))))) in *.
+  pose proof (Z.div_mod n 32 ltac:(lia)).
+  assert (n = Z.of_nat (length (body ++ bits_of nw 0)) + Z.of_nat (padlen (blk_body_start w pos id nw + Z.of_nat (length (body ++ bits_of nw 0))))).
+  { unfold n. rewrite app_length, zeros_length. lia. }
+  lia.
+Qed.
+
 Theorem item_step_all : forall x, item_step x.
 Proof.
   induction x as [code ops | id nw body IHb] using item_ind'; unfold item_step;
@@ -372,7 +398,15 @@ Proof.
     apply item_wf_blk in Hwf. destruct Hwf as (Hid & Hnw & Hwb).
     apply item_fits_blk in Hfit. destruct Hfit as (Hwords & Hfb).
     rewrite item_size_blk in Hf.
-    rewrite enc_item_blk. unfold enc_block, blk_header. rewrite <- !app_assoc.
+    change (items_wf body) in Hwb.
+    change (block_words w p id nw (enc_items nw (blk_body_start w p id nw) body) < two32) in Hwords.
+    change (items_fits nw (blk_body_start w p id nw) body) in Hfb.
+    rewrite enc_item_blk.
+    set (body_bits := enc_items nw (blk_body_start w p id nw) body) in *.
+    rewrite enc_block_eq. rewrite <- !app_assoc.
+    pose proof (block_words_32 w p id nw body_bits Hp) as H32.
+    set (L := block_words w p id nw body_bits) in *.
+    assert (HL0 : 0 <= L) by (unfold L, block_words; cbv zeta; apply Z.div_pos; lia).
     destruct (bits_of_nonempty w 1 ltac:(lia)) as (b & tl & E).
     assert (E2 : forall z, bits_of w 1 ++ z = b :: (tl ++ z)) by (intros; rewrite E; reflexivity).
     rewrite E2, dec_items_nonempty, <- E2. unfold dec_body.
@@ -382,39 +416,99 @@ Proof.
     rewrite vbr_roundtrip by lia.
     destruct (Z.ltb_spec (Z.of_nat nw) 2) as [?|_]; [lia|].
     destruct (Z.gtb_spec (Z.of_nat nw) 32) as [?|_]; [lia|]. cbn [orb].
-    set (body_bits := enc_items nw (blk_body_start w p id nw) body) in *.
-    set (inner := body_bits ++ bits_of nw 0) in *.
-    set (p1 := p + Z.of_nat (length (bits_of w 1 ++ enc_vbr 8 id ++ enc_vbr 4 (Z.of_nat nw)))).
+    set (p1 := p + Z.of_nat (length (blk_header w id nw))) in *.
     assert (Hp1 : p + Z.of_nat w + Z.of_nat (length (enc_vbr 8 id)) + Z.of_nat (length (enc_vbr 4 (Z.of_nat nw))) = p1).
-    { unfold p1. rewrite !app_length, bits_of_length. lia. }
+    { unfold p1, blk_header. rewrite !app_length, bits_of_length. lia. }
     rewrite Hp1.
     rewrite read_align_zeros.
-    set (pad2 := zeros (padlen (blk_body_start w p id nw + Z.of_nat (length inner)))) in *.
-    set (L := Z.of_nat (length (inner ++ pad2)) / 32) in *.
-    assert (HL : L = block_words w p id nw body_bits) by reflexivity.
-    assert (HL0 : 0 <= L) by (unfold L; apply Z.div_pos; lia).
-    assert (Hbs : p1 + Z.of_nat (padlen p1) + 32 = blk_body_start w p id nw).
-    { unfold blk_body_start, p1, blk_header. reflexivity. }
-    rewrite (Z.mod_small L two32) by (rewrite HL; unfold two32 in *; lia).
+    assert (Hbs : p1 + Z.of_nat (padlen p1) + 32 = blk_body_start w p id nw) by reflexivity.
+    rewrite (Z.mod_small L two32) by (unfold two32 in *; lia).
     rewrite read_fixed_bits by (change (Z.of_nat 32) with 32; unfold two32 in *; change (2 ^ 32) with 4294967296; lia).
     change (Z.of_nat 32) with 32. rewrite Hbs. rewrite Nat2Z.id.
     pose proof (blk_body_start_aligned w p id nw Hp) as [Hal Hbs0].
     pose proof (list_step_of_items body IHb) as LS. unfold list_step in LS.
-    unfold inner at 2. rewrite <- !app_assoc.
     specialize (LS f nw (blk_body_start w p id nw) k Hbs0 Hnw Hwb Hfb ltac:(lia)).
-    fold body_bits in LS. fold inner in LS. fold pad2 in LS.
+    fold body_bits in LS. try rewrite <- !app_assoc in LS.
     rewrite LS. cbn [fst snd].
-    pose proof (enc_block_length_aligned w p id nw body_bits Hp) as Hmod. cbn zeta in Hmod.
-    fold inner in Hmod. fold pad2 in Hmod.
-    assert (H32 : 32 * L = Z.of_nat (length (inner ++ pad2))).
-    { unfold L. pose proof (Z.div_mod (Z.of_nat (length (inner ++ pad2))) 32 ltac:(lia)). lia. }
-    replace (blk_body_start w p id nw + Z.of_nat (length inner) + Z.of_nat (padlen (blk_body_start w p id nw + Z.of_nat (length inner))))
-      with (blk_body_start w p id nw + 32 * L)
-      by (rewrite H32; unfold pad2; rewrite app_length, zeros_length; lia).
+    rewrite <- Z.add_assoc, <- H32.
     rewrite Z.eqb_refl.
     match goal with |- match dec_items f top w (?a, k) with _ => _ end = match dec_items f top w (?b, k) with _ => _ end =>
       replace b with a end.
     + reflexivity.
-    + rewrite H32. rewrite !app_length, bits_of_length, !zeros_length.
+    + rewrite H32. rewrite !app_length, !bits_of_length, !zeros_length.
       unfold p1, blk_header in *. rewrite !app_length, bits_of_length in *. lia.
+Qed.
+
+(* ---------------- whole streams ---------------- *)
+
+Lemma dec_top : forall l fuel p, 0 <= p -> items_wf l -> items_fits 2 p l -> (items_size l <= fuel)%nat ->
+  dec_items fuel true 2 (p, enc_items 2 p l) = Ok (l, (p + Z.of_nat (length (enc_items 2 p l)), [])).
+Proof.
+  induction l as [|x l IH]; intros fuel p Hp Hwf Hfit Hfuel.
+  - cbn [items_size] in Hfuel. destruct fuel; [lia|].
+    unfold enc_items. cbn [enc_list_with dec_items snd fst length]. rewrite Z.add_0_r. reflexivity.
+  - cbn [items_size] in Hfuel. pose proof (items_size_pos l). pose proof (item_size_pos x).
+    destruct fuel as [|f]; [lia|].
+    destruct Hwf as [Hwx Hwl]. apply items_fits_cons in Hfit. destruct Hfit as [Hfx Hfl].
+    rewrite enc_items_cons.
+    rewrite (item_step_all x f true 2%nat p _ Hp ltac:(lia) Hwx Hfx ltac:(lia)).
+    rewrite IH by (try assumption; lia).
+    rewrite app_length, Nat2Z.inj_add, Z.add_assoc. reflexivity.
+Qed.
+
+Lemma magic_val : val_of magic_bits = 3737142082 /\ length magic_bits = 32%nat.
+Proof. vm_compute. split; reflexivity. Qed.
+
+Theorem stream_roundtrip_fuel : forall l fuel, items_wf l -> items_fits 2 32 l -> (items_size l <= fuel)%nat ->
+  dec_stream_fuel fuel (enc_stream l) = Ok l.
+Proof.
+  intros l fuel Hwf Hfit Hfuel. unfold dec_stream_fuel, enc_stream.
+  destruct magic_val as [Hv Hl].
+  pose proof (take_app magic_bits (enc_items 2 32 l)) as T. rewrite Hl in T. rewrite T.
+  rewrite Hv. cbn [Z.eqb Pos.eqb].
+  rewrite dec_top by (try assumption; lia). reflexivity.
+Qed.
+
+Definition size_le_len (x : item) : Prop := forall w p, (item_size x <= length (enc_item w p x))%nat.
+
+Lemma enc_ops_length : forall ops, (length ops <= length (enc_ops ops))%nat.
+Proof.
+  induction ops as [|v ops IH]; [cbn; lia|].
+  unfold enc_ops in *. cbn [flat_map length]. rewrite app_length.
+  pose proof (enc_vbr_nonempty 6 v ltac:(lia)). lia.
+Qed.
+
+Lemma items_size_le_len : forall l, Forall size_le_len l -> forall w p, (items_size l <= S (length (enc_items w p l)))%nat.
+Proof.
+  induction l as [|x l IH]; intros HF w p.
+  - cbn. lia.
+  - inversion HF as [|? ? Hx HFl]; subst.
+    rewrite enc_items_cons, app_length. cbn [items_size].
+    specialize (IH HFl w (p + Z.of_nat (length (enc_item w p x)))). specialize (Hx w p). lia.
+Qed.
+
+Lemma size_le_len_all : forall x, size_le_len x.
+Proof.
+  induction x as [code ops | id nw body IHb] using item_ind'; unfold size_le_len; intros w p.
+  - cbn [item_size enc_item]. unfold enc_record. rewrite !app_length.
+    pose proof (enc_ops_length ops). pose proof (enc_vbr_nonempty 6 code ltac:(lia)).
+    pose proof (enc_vbr_nonempty 6 (Z.of_nat (length ops)) ltac:(lia)). lia.
+  - rewrite item_size_blk, enc_item_blk, enc_block_eq. rewrite !app_length, !bits_of_length.
+    pose proof (items_size_le_len body IHb nw (blk_body_start w p id nw)).
+    pose proof (enc_vbr_nonempty 8 id ltac:(lia)). lia.
+Qed.
+
+(* stream round trip: every well-formed tree whose block lengths fit the 32-bit length field *)
+Theorem stream_roundtrip : forall l, items_wf l -> items_fits 2 32 l -> dec_stream (enc_stream l) = Ok l.
+Proof.
+  intros l Hwf Hfit. unfold dec_stream. apply stream_roundtrip_fuel; try assumption.
+  unfold enc_stream. rewrite app_length.
+  pose proof (items_size_le_len l ltac:(apply Forall_forall; intros; apply size_le_len_all) 2%nat 32). lia.
+Qed.
+
+Theorem bytes_roundtrip : forall bytes l, bits_of_bytes bytes = enc_stream l -> Z.of_nat (length bytes) mod 4 = 0 ->
+  items_wf l -> items_fits 2 32 l -> dec_bytes bytes = Ok l.
+Proof.
+  intros bytes l Hb Hm Hwf Hfit. unfold dec_bytes. rewrite Hm. cbn [Z.eqb]. rewrite Hb.
+  apply stream_roundtrip; assumption.
 Qed.
